@@ -339,7 +339,10 @@ func (f *Flow) runGeneration(adopt bool) {
 		s.Go("a-setup", func() {
 			var c *mqtt.Client
 			var err error
-			if !adopt {
+			if o.Volatile {
+				w.Probe("volatile_session")
+				c, err = mqtt.VolatileSession(o.ClientID, f.config(s))
+			} else if !adopt {
 				c, err = mqtt.InitSession(o.ClientID, store, f.config(s))
 			} else {
 				var warn []error
@@ -586,6 +589,28 @@ func (f *Flow) summary() string {
 }
 
 func init() {
+	volatileTune := func(f *Flow) {
+		// VolatileSession: the package's in-memory store, no integrity
+		// layer; identifiers and completion are read from the wire and the
+		// exchange channels
+		o := &f.O
+		o.Volatile = true
+		o.Generations = 1
+		o.Disk = DiskOpts{}
+		o.Publishers = 1 + f.W.Tape.Draw("npubV", 3)
+		o.PerPub = 2 + f.W.Tape.Draw("perpubV", 6)
+		o.Q2 = 600
+		o.Inbound = f.W.Tape.Draw("ninV", 5)
+		o.InQ = [3]int{1, 2, 3}
+		if o.BreakW == 0 {
+			o.BreakW = 2
+		}
+		o.Budget += 3
+	}
+	register("C01", Family{Name: "volatile", Weight: 1, Run: flowFamily(volatileTune, "retransmitted", "volatile_session")})
+	register("C03", Family{Name: "volatile", Weight: 1, Run: flowFamily(volatileTune, "retransmitted", "volatile_session")})
+	register("C05", Family{Name: "volatile", Weight: 1, Run: flowFamily(volatileTune, "retransmitted", "volatile_session")})
+	register("C08", Family{Name: "volatile", Weight: 1, Run: flowFamily(volatileTune, "retransmitted", "volatile_session")})
 	register("C01", Family{Name: "flow", Weight: 3, Run: flowFamily(nil, "retransmitted", "accepted_while_down")},
 		Family{Name: "mixed", Weight: 1, Run: flowFamily(func(f *Flow) {
 			f.O.Requesters = 1 + f.W.Tape.Draw("nreq", 2)
